@@ -232,22 +232,36 @@ def generate():
     groups = re.findall(r"#define\s+BABYLON_TMP_GEN\(type\)(.*?)#undef\s+BABYLON_TMP_GEN", sc, re.S)
     if len(groups) != 2:
         raise ExtractError("scalar.h: expected two BABYLON_TMP_GEN groups, found %d" % len(groups))
-    kinds = {}
+    def io_widths(body, what, tname):
+        """(write, read, size) varint widths and the read-back cast of one scalar traits body"""
+        mw = re.search(r"os\.WriteVarint(32|64)\(static_cast<uint(32|64)_t>\(value\)\)", body)
+        mr = re.search(r"uint(32|64)_t\s+uvalue;.*?is\.ReadVarint(32|64)\(&uvalue\).*?value\s*=\s*([^;]+);", body, re.S)
+        ms = re.search(r"VarintSize(32|64)\(static_cast<uint(32|64)_t>\(value\)\)", body)
+        if not (mw and mr and ms) or mw.group(1) != mw.group(2) or mr.group(1) != mr.group(2) or ms.group(1) != ms.group(2):
+            raise ExtractError("scalar.h: %s traits not understood" % what)
+        cast = re.sub(r"\s+", "", mr.group(3)).replace("static_cast<%s>" % tname, "static_cast<T>")
+        return int(mw.group(1)), int(mr.group(1)), int(ms.group(1)), cast
+    kinds, io = {}, []
     for g in groups:
-        width = None
-        for w in ("32", "64"):
-            if ("WriteVarint%s(static_cast<uint%s_t>(value))" % (w, w)) in g and ("ReadVarint%s(&uvalue)" % w) in g \
-                    and ("VarintSize%s(static_cast<uint%s_t>(value))" % (w, w)) in g and "value = static_cast<type>(uvalue);" in g:
-                width = w
-        if width is None:
-            raise ExtractError("scalar.h: macro body not understood")
-        kinds[width] = re.findall(r"BABYLON_TMP_GEN\((\w+)\);", g)
+        w, r, z, cast = io_widths(g, "integer macro", "type")
+        if not (w == r == z):
+            raise ExtractError("scalar.h: an integer macro group writes %d-bit, reads %d-bit, sizes %d-bit varints" % (w, r, z))
+        names = re.findall(r"BABYLON_TMP_GEN\((\w+)\);", g)
+        kinds[str(w)] = names
+        for nme in names:
+            io.append((nme, w, r, z, cast))
+    if sorted(kinds) != ["32", "64"]:
+        raise ExtractError("scalar.h: expected one 32-bit and one 64-bit macro group")
     items.append("def varint32Kinds : List String := " + _lean_str_list(kinds["32"]))
     items.append("def varint64Kinds : List String := " + _lean_str_list(kinds["64"]))
     en = sc[sc.find("is_enum<T>"):]
-    if not ("WriteVarint64(static_cast<uint64_t>(value))" in en and "ReadVarint64(&uvalue)" in en and "value = static_cast<T>(uvalue);" in en):
-        raise ExtractError("scalar.h: enum traits changed")
-    items.append(nat_def("enumVarintBits", 64))
+    ew, er, ez, ecast = io_widths(en, "enum", "T")
+    io.append(("enum", ew, er, ez, ecast))
+    items.append(nat_def("enumVarintBits", ew))
+    items.append(nat_def("enumReadBits", er))
+    items.append(nat_def("enumSizeBits", ez))
+    items.append("def scalarIO : List (String × Nat × Nat × Nat × String) := [" + ", ".join(
+        '("%s", %d, %d, %d, "%s")' % x for x in io) + "]")
     if not ("WriteLittleEndian32(WireFormatLite::EncodeFloat(value))" in sc and "ReadLittleEndian32(&uvalue)" in sc
             and "WriteLittleEndian64(WireFormatLite::EncodeDouble(value))" in sc and "ReadLittleEndian64(&uvalue)" in sc):
         raise ExtractError("scalar.h: float/double traits changed")
